@@ -88,6 +88,17 @@ pub fn mname(c: u8) -> &'static str {
     }
 }
 
+/// Does the chain contain a method that may legitimately change which key object is stored for
+/// the entry's key (key replacement, `key_mut`, or a removal that a later method re-inserts after)?
+pub fn may_replace_key(arg: u64) -> bool {
+    decode(arg).iter().any(|&m| {
+        matches!(
+            m,
+            O_REPLACE_ENTRY | O_REPLACE_KEY | RO_INSERT_KEY | RO_KEY_MUT | RO_GET_KEY_VALUE_MUT | O_REMOVE | O_REMOVE_ENTRY | O_REPLACE_WITH_NONE | E_AND_REPLACE_NONE | RE_AND_REPLACE_NONE | RO_REMOVE | RO_REMOVE_ENTRY | RO_REPLACE_WITH_NONE
+        )
+    })
+}
+
 pub fn encode(ms: &[u8]) -> u64 {
     let mut a = 0u64;
     for (i, &m) in ms.iter().enumerate() {
